@@ -27,4 +27,30 @@ MUTANTS = [
      "cmd": "find sc62015/core/src sc62015/rustcore -name '*.rs' 2>/dev/null | xargs rustfmt --edition 2021 --config max_width=70 || true"},
     {"id": "neutral/line-shift", "kind": "neutral", "props": ALL,
      "cmd": "for f in $(find sc62015 pce500 -name '*.py' -not -path '*/third_party/*'); do printf '# shifted\n# shifted\n# shifted\n' | cat - $f > $f.tmp && mv $f.tmp $f; done; for f in $(find sc62015 -name '*.rs'); do printf '// shifted\n// shifted\n' | cat - $f > $f.tmp && mv $f.tmp $f; done"},
+
+    # --- targeted behaviour-preserving refactors around the rules added after seeding ---------------------------------
+    {"id": "neutral/org-arg-temporary", "kind": "neutral", "props": ["C10"], "edits": [
+        {"file": P + "sc_asm.py", "old": "            new_addr = self._evaluate_operand(str(stmt[\"args\"]))\n", "new": "            org_arg = str(stmt[\"args\"])\n            new_addr = self._evaluate_operand(org_arg)\n"}]},
+    {"id": "neutral/irq-saved-imr-rename", "kind": "neutral", "props": ["C12", "C05"], "edits": [
+        {"file": "pce500/emulator.py", "old": "imr_val = self.memory.read_byte(imr_addr)", "new": "saved_imr = self.memory.read_byte(imr_addr)"},
+        {"file": "pce500/emulator.py", "old": "self.memory.write_bytes(1, s_new, imr_val)", "new": "self.memory.write_bytes(1, s_new, saved_imr)"},
+        {"file": "pce500/emulator.py", "old": "push_imr value=0x{imr_val & 0xFF:02X}", "new": "push_imr value=0x{saved_imr & 0xFF:02X}"},
+        {"file": "pce500/emulator.py", "old": "imr_addr, imr_val & (~int(IMRFlag.IRM) & 0xFF)", "new": "imr_addr, saved_imr & (~int(IMRFlag.IRM) & 0xFF)"}]},
+    {"id": "neutral/flat-image-temporary", "kind": "neutral", "props": ["C16"], "edits": [
+        {"file": "pce500/memory.py", "old": "                    blob[start : start + max_len] = overlay.data[:max_len]", "new": "                    copy_end = start + max_len\n                    blob[start:copy_end] = overlay.data[:max_len]"}]},
+    {"id": "neutral/registers-address-table", "kind": "neutral", "props": ["C08"], "edits": [
+        {"file": P + "emulator.py", "old": "    def get(self, reg: RegisterName) -> int:\n        if reg in self.BASE:\n            val = self._values[reg]\n            if reg in (\n                RegisterName.PC,\n                RegisterName.X,\n                RegisterName.Y,\n                RegisterName.U,\n                RegisterName.S,\n            ):",
+         "new": "    _ADDR20 = (RegisterName.PC, RegisterName.X, RegisterName.Y, RegisterName.U, RegisterName.S)\n\n    def get(self, reg: RegisterName) -> int:\n        if reg in self.BASE:\n            val = self._values[reg]\n            if reg in self._ADDR20:"}]},
+    {"id": "neutral/active-columns-mask", "kind": "neutral", "props": ["C14"], "edits": [
+        {"file": "pce500/keyboard_matrix.py", "old": "        active: List[int] = []\n        for col in range(8):\n            bit = (self.kol >> col) & 1\n            active_flag = bit == 1 if self.columns_active_high else bit == 0\n            if active_flag:\n                active.append(col)\n        for col in range(8):\n            bit = (self.koh >> col) & 1\n            active_flag = bit == 1 if self.columns_active_high else bit == 0\n            if active_flag:\n                active.append(col + 8)\n        return active",
+         "new": "        mask = (self.kol & 0xFF) | ((self.koh & 0xFF) << 8)\n        if not self.columns_active_high:\n            mask ^= 0xFFFF\n        return [col for col in range(16) if (mask >> col) & 1]"}]},
+    {"id": "neutral/async-cpu-counting-while", "kind": "neutral", "props": ["C18"], "edits": [
+        {"file": "sc62015/core/src/async_cpu.rs", "old": "        for _ in 0..instructions {", "new": "        let mut step_index = 0;\n        while step_index < instructions {\n            step_index += 1;"}]},
+    {"id": "neutral/restore-rename", "kind": "neutral", "props": ["C13", "C16"], "edits": [
+        {"file": "pce500/emulator.py", "old": "        next_mti = int(\n            timer_info.get(\"next_mti\"", "new": "        restored_mti = int(\n            timer_info.get(\"next_mti\""},
+        {"file": "pce500/emulator.py", "old": "        self._scheduler.next_mti = next_mti", "new": "        self._scheduler.next_mti = restored_mti"}]},
+    {"id": "neutral/reg3-20bit-from-names", "kind": "neutral", "props": ["C06", "C04"], "edits": [
+        {"file": P + "instr/instructions.py", "old": "REG3_20BIT_REGS = (\n    RegisterName(\"X\"),\n    RegisterName(\"Y\"),\n    RegisterName(\"U\"),\n    RegisterName(\"S\"),\n)", "new": "REG3_20BIT_REGS = tuple(RegisterName(n) for n in (\"X\", \"Y\", \"U\", \"S\"))"}]},
+    {"id": "neutral/popf-reorder", "kind": "neutral", "props": ["C04", "C07"], "edits": [
+        {"file": P + "instr/opcodes.py", "old": "        il.append(il.set_flag(CFlag, il.and_expr(1, tmp.lift(il), il.const(1, 1))))\n        il.append(il.set_flag(ZFlag, il.and_expr(1, tmp.lift(il), il.const(1, 2))))", "new": "        il.append(il.set_flag(ZFlag, il.and_expr(1, tmp.lift(il), il.const(1, 0x02))))\n        il.append(il.set_flag(CFlag, il.and_expr(1, tmp.lift(il), il.const(1, 0x01))))"}]},
 ]
